@@ -246,6 +246,48 @@ func rewriteFile(rel string, src []byte, rep *Report, typed *TypedInfo) ([]byte,
 			}
 		}
 	}
+	// 2b. os.Setenv / Getenv / ... -> vcoop.Setenv / Getenv / ... (the process environment is shared state)
+	osName := ""
+	for _, imp := range f.Imports {
+		if p, _ := strconv.Unquote(imp.Path.Value); p == "os" {
+			osName = "os"
+			if imp.Name != nil {
+				osName = imp.Name.Name
+			}
+		}
+	}
+	if osName != "" && osName != "_" && osName != "." {
+		envFuncs := map[string]bool{"Setenv": true, "Unsetenv": true, "Getenv": true, "LookupEnv": true, "Environ": true, "Clearenv": true}
+		ast.Inspect(f, func(nd ast.Node) bool {
+			sel, ok := nd.(*ast.SelectorExpr)
+			if !ok {
+				return true
+			}
+			if id, ok := sel.X.(*ast.Ident); ok && id.Name == osName && id.Obj == nil && envFuncs[sel.Sel.Name] {
+				id.Name = "vcoop"
+				needImports[shimCoop] = "vcoop"
+				n++
+				rep.Rewrites["os env"]++
+			}
+			return true
+		})
+		used := false
+		ast.Inspect(f, func(nd ast.Node) bool {
+			if sel, ok := nd.(*ast.SelectorExpr); ok {
+				if id, ok := sel.X.(*ast.Ident); ok && id.Name == osName && id.Obj == nil {
+					used = true
+				}
+			}
+			return true
+		})
+		if !used {
+			for _, imp := range f.Imports {
+				if p, _ := strconv.Unquote(imp.Path.Value); p == "os" {
+					imp.Name = ast.NewIdent("_")
+				}
+			}
+		}
+	}
 	// 3. UnsortedList -> List
 	ast.Inspect(f, func(nd ast.Node) bool {
 		if sel, ok := nd.(*ast.SelectorExpr); ok && sel.Sel.Name == "UnsortedList" {
@@ -272,7 +314,7 @@ func rewriteFile(rel string, src []byte, rep *Report, typed *TypedInfo) ([]byte,
 				return true
 			}
 			xs := types.ExprString(rs.X)
-			if !mapExprs[xs] {
+			if !mapExprs[xs] && !(typed != nil && typed.MapRanges[rel][fset.Position(rs.Pos()).Offset]) {
 				return true
 			}
 			cnt++
